@@ -105,7 +105,7 @@ def signature(fid, f, sh):
 
 def judge(c):
     sh = Shadow()
-    stats = {"queries": 0, "nonempty": 0, "impl_routes_disagree": 0, "nd": 0, "planned": 0, "by_index": {}}
+    stats = {"queries": 0, "nonempty": 0, "impl_routes_disagree": 0, "nd": 0, "by_index": {}}
     unexplained, mism = [], []
     n = max(len(c.ops), len(c.impl), len(c.model))
     for i in range(n):
